@@ -63,7 +63,7 @@ structure St where
   releases    : List Nat                  -- instant of each tick, newest first
   delivered   : List Nat                  -- sequence numbers in delivery order, newest first
   stopReturns : List Bool                 -- return values of all Stop calls, newest first
-  deriving Repr, Inhabited
+  deriving Repr, Inhabited, DecidableEq
 
 inductive Lbl where
   -- environment
